@@ -63,6 +63,7 @@ type gslot struct {
 	name  string
 	alive bool
 	idx   int // slot of the index (data channels)
+	dt    string
 }
 
 type gen struct {
@@ -201,6 +202,17 @@ func (g *gen) create() Op {
 	for i := 0; i < ns; i++ {
 		op.Specs = append(op.Specs, g.spec(&op))
 	}
+	// With one of the options set, the batch often repeats an existing channel exactly
+	// (same name, kind, type, leaseholder, index) next to new ones: the element the
+	// options are for. Its position in the batch is drawn.
+	if al := g.alive(func(s *gslot) bool { return s.dt != "" }); (op.Retrieve || op.Overwrite) && len(al) > 0 && rapid.Bool().Draw(g.t, "clone") {
+		src := rapid.SampledFrom(al).Draw(g.t, "clonesrc")
+		sp := Spec{ID: g.nextID, Kind: src.kind, DT: src.dt, LH: src.lh, Idx: src.idx, Name: src.name}
+		g.nextID++
+		pos := rapid.IntRange(0, len(op.Specs)).Draw(g.t, "clonepos")
+		op.Specs = append(op.Specs[:pos:pos], append([]Spec{sp}, op.Specs[pos:]...)...)
+		ns = len(op.Specs)
+	}
 	bad := ""
 	if rapid.IntRange(0, 3).Draw(g.t, "bad") == 0 {
 		pos := 0
@@ -241,7 +253,7 @@ func (g *gen) create() Op {
 	}
 	// prediction: a request without a deliberately invalid element succeeds
 	for _, sp := range op.Specs {
-		s := &gslot{id: sp.ID, kind: sp.Kind, lh: sp.LH, name: sp.Name, idx: sp.Idx, alive: bad == ""}
+		s := &gslot{id: sp.ID, kind: sp.Kind, lh: sp.LH, name: sp.Name, idx: sp.Idx, alive: bad == "", dt: sp.DT}
 		if s.lh == 0 {
 			s.lh = op.Node
 		}
